@@ -466,7 +466,11 @@ def rule_p10(repo):
         if cp and cp[0] in (ast.Eq, ast.NotEq) and about_ids(cp[1]) and about_ids(cp[2]) and \
                 not (isinstance(cp[1], ast.Call) or isinstance(cp[2], ast.Call)):
             eq_tests.append((t, 'true' if cp[0] is ast.NotEq else 'false', 'false' if cp[0] is ast.NotEq else 'true'))
-    need(eq_tests, 'ItemID.can_depend_on: no (in)equality test between the two identifiers')
+    if not eq_tests:
+        res.add('kernel/proof.py :: ItemID.can_depend_on :: yes-after-prefix-comparison', False,
+                'the two identifiers are never compared for (in)equality: a line of any other block can be cited', f.loc)
+        res.floor = 1
+        return res
 
     def is_false(r):
         return isinstance(r.ast.value, ast.Constant) and r.ast.value.value is False
